@@ -127,6 +127,18 @@ def run(ctx):
             else:
                 toks.insert(i, toks[i])
         progs.append(" ".join(toks))
+    # the operands of an infix comparison are sub-expression contexts, each a scope of its own: `A op B`
+    # against `?(let X1 := A; let X2 := B; X1 X2 ?w)` (bodies of `let` are scopes); both forms go through
+    # the comparisons below, and the two must agree with each other
+    OPERANDS = ["(let T := 7; T)", "(let T := 7; T 1 add)", "(T 2 add)", "(let U := T; U)", "((|T| T) 1 add)", "(let T := 9; let U := 1; T U add)", "T",
+                "(let V := 1; V)", "(V)", "(let T := (1, 7); T)", "{let T := 8; T} apply"]
+    ipairs = []
+    for A in OPERANDS:
+        for B in OPERANDS:
+            for op, w in (("==", "?eq"), ("<", "?lt"), (">=", "?ge")) if quick else (("==", "?eq"), ("!=", "?ne"), ("<", "?lt"), (">", "?gt"), ("<=", "?le"), (">=", "?ge")):
+                for pre, post in (("let T := 5; (5, 7) ", ""), ("let T := 7; {", "} apply T"), ("let T := 5; [", ", T]")):
+                    ipairs.append(("%s(%s %s %s)%s" % (pre, A, op, B, post), "%s?(let X1 := %s; let X2 := %s; X1 X2 %s)%s" % (pre, A, B, w, post)))
+    progs += [x for pr in ipairs for x in pr]
     progs = list(dict.fromkeys(progs))
 
     # 1. accept / reject
@@ -157,11 +169,23 @@ def run(ctx):
     for k in range(0, len(good), 3000):
         compare(ctx, good[k:k + 3000], stats, "names")
 
+    # 3. infix forms against their word forms
+    ires = zw.run_cases([zw.enc(x) for pr in ipairs for x in pr])
+    ibad = 0
+    for k, (qa, qb) in enumerate(ipairs):
+        ca, cb = engine.canon_impl(ires[2 * k]), engine.canon_impl(ires[2 * k + 1])
+        stats["evaluations"] += 2
+        if ca != cb:
+            ibad += 1
+            if ibad <= 3:
+                ctx.violation("a binding crosses the boundary of an infix operand: `%s` gives %s, `%s` gives %s" % (qa, str(ca)[:100], qb, str(cb)[:100]),
+                              {"query": qa, "rewritten": qb, "kind": "infix-operand"})
+
     common.report_broken_obligations(ctx, oblig, bool(ctx.violations))
     ctx.cov.update({
         "evaluations": stats["evaluations"],
         "distinct_nontrivial": len([q for q in good if ("let " in q or "(|" in q or "[|" in q or "{" in q)]),
-        "rule": "programs built around names: ~60 templates (every binder form, shadowing, multi-yield let, blocks capturing 0-3 up-values at depths 1-3, applied 0/1/many times, read through names; 24 ill-scoped shapes incl. leaks out of every kind of context) with random fillers, each also behind a two-stack producer, + two names bound / rebound (let, parameter, or a sub-scope opened after the name was read) and read at every level of 1-3 nested applied blocks (each binding with its own value), + random nested programs with names and blocks, + random programs damaged by dropping/duplicating a binder; non-trivial = compiles and contains a binder; accept/reject compared with the documented rules and with the model of build.cc, results with the engine model and the specification",
+        "rule": "programs built around names: ~60 templates (every binder form, shadowing, multi-yield let, blocks capturing 0-3 up-values at depths 1-3, applied 0/1/many times, read through names; 24 ill-scoped shapes incl. leaks out of every kind of context) with random fillers, each also behind a two-stack producer, + two names bound / rebound (let, parameter, or a sub-scope opened after the name was read) and read at every level of 1-3 nested applied blocks (each binding with its own value), + random nested programs with names and blocks, + random programs damaged by dropping/duplicating a binder, + infix comparisons whose operands bind, shadow and read names (in plain, block and capture contexts) against their word forms; non-trivial = compiles and contains a binder; accept/reject compared with the documented rules and with the model of build.cc, results with the engine model and the specification",
         "samples": progs[:3] + progs[130:132],
         "compiler_verdicts": verdicts,
         "traces_validated_against_impl": stats["evaluations"],
